@@ -49,8 +49,24 @@ func (g *generator) run(r *runner) {
 		c := g.newCase(g.prop, i)
 		if len(c.fixed) == 0 && c.cfg.Lvl == 1 && g.chance(4) {
 			g.burst(c)
-		} else if len(c.fixed) == 0 && c.cfg.Lvl == 1 && ((g.tier == "thorough" && i%100 == 50) || i == 1000) {
-			g.huge(c) // one case per quick run (sixty in thorough; the model's replay of such a case takes seconds): more than a
+		} else if len(c.fixed) == 0 && c.cfg.Lvl == 1 && ((g.tier == "thorough" && i%100 == 50) || i == 1000 || i == 1037 || i == 1074) {
+			if g.tier != "thorough" {
+				// quick: one huge case per bulk-capable kind of the property, at most three; properties that
+				// range over many kinds get a single one
+				ks := hugeKinds(g.prop)
+				j := (i - 1000) / 37
+				if j < len(ks) && j < 3 {
+					c.cfg.Kind = ks[(j+int(g.seed))%len(ks)]
+					if takesComparator(c.cfg.Kind) && c.cfg.KCmp == "" {
+						c.cfg.KCmp = "CNat"
+					}
+					g.huge(c)
+				} else if j == 0 {
+					g.huge(c)
+				}
+			} else {
+				g.huge(c)
+			} // one case per quick run (sixty in thorough; the model's replay of such a case takes seconds): more than a
 			// thousand elements, loaded by ONE bulk operation
 		}
 		r.runCase(id, c.cfg, c)
@@ -129,17 +145,17 @@ func (g *generator) huge(c *caseGen) {
 	switch kind {
 	case "ArrayList", "SinglyLinkedList", "DoublyLinkedList":
 		first = &Op{Name: "Add", Vs: vals}
-		more = []*Op{{Name: "RemoveAt", I: 128}, {Name: "RemoveAt", I: n - 129}, {Name: "Sort", Cmp: "CNat"}, {Name: "Clear"},
-			{Name: "Add", Vs: pick(3)}, {Name: "RemoveAt", I: 0}, {Name: "Insert", I: 0, Vs: pick(1030)}, {Name: "Add", Vs: pick(1030)},
-			{Name: "Map", F: MapF{Name: "FValPlus", C: 1}}, {Name: "Select", P: Pred{Name: "PValMod", A: 2, B: 0}}}
+		more = []*Op{{Name: "Map", F: MapF{Name: "FValPlus", C: 1}}, {Name: "RemoveAt", I: 128}, {Name: "Select", P: Pred{Name: "PValMod", A: 2, B: 0}},
+			{Name: "RemoveAt", I: n - 129}, {Name: "Clear"}, {Name: "Add", Vs: pick(3)}, {Name: "RemoveAt", I: 0},
+			{Name: "Sort", Cmp: "CNat"}, {Name: "Insert", I: 0, Vs: pick(1030)}, {Name: "Add", Vs: pick(1030)}}
 	case "HashSet", "LinkedHashSet", "TreeSet":
 		first = &Op{Name: "Add", Vs: vals}
-		more = []*Op{{Name: "RemoveVals", Vs: pick(3)}, {Name: "RemoveVals", Vs: pick(g.between(130, 300))}, {Name: "Add", Vs: pick(40)},
-			{Name: "Union", Vs: []int{}}, {Name: "Inter", Vs: pick(5)}, {Name: "Diff", Vs: pick(2)}, {Name: "Union", Vs: pick(3)},
-			{Name: "Clear"}, {Name: "Add", Vs: pick(4)}, {Name: "Union", Vs: vals}, {Name: "Inter", Vs: vals}, {Name: "Diff", Vs: vals}}
+		more = []*Op{{Name: "RemoveVals", Vs: pick(3)}, {Name: "RemoveVals", Vs: pick(g.between(130, 300))}, {Name: "Union", Vs: []int{}},
+			{Name: "Clear"}, {Name: "Add", Vs: pick(4)}, {Name: "Union", Vs: vals}, {Name: "Inter", Vs: vals}, {Name: "Diff", Vs: vals},
+			{Name: "Add", Vs: pick(40)}, {Name: "Inter", Vs: pick(5)}, {Name: "Diff", Vs: pick(2)}, {Name: "Union", Vs: pick(3)}}
 	case "BinaryHeap":
 		first = &Op{Name: "PushAll", Vs: vals}
-		more = []*Op{{Name: "Pop"}, {Name: "PushAll", Vs: pick(40)}, {Name: "Pop"}, {Name: "Clear"}, {Name: "Push", I: 5}}
+		more = []*Op{{Name: "Pop"}, {Name: "Clear"}, {Name: "Push", I: 5}} // the level-sorted Values() of a big heap is costly to replay
 	case "ArrayStack", "LinkedListStack", "ArrayQueue", "LinkedListQueue", "PriorityQueue":
 		first = &Op{Name: "FromJSON", JSON: text(vals), HasJS: true, Stream: "valid"}
 		if kind == "ArrayStack" || kind == "LinkedListStack" {
@@ -170,12 +186,34 @@ func (g *generator) huge(c *caseGen) {
 	c.cfg.Uni = c.U
 	c.lo, c.hi = -1, c.U+1
 	if g.tier != "thorough" && len(more) > 6 {
-		g.rng.Shuffle(len(more), func(a, b int) { more[a], more[b] = more[b], more[a] })
-		more = more[:6]
+		more = more[:6] // the most size-sensitive operations come first
 	}
 	c.fixed = append([]*Op{first}, more...)
 	c.plan = nil
 	c.cfg.Extra += " huge=" + fmt.Sprint(n)
+}
+
+// the bulk-capable kinds a property is specifically about (see huge)
+func hugeKinds(prop string) []string {
+	switch prop {
+	case "C03":
+		return []string{"SinglyLinkedList", "DoublyLinkedList"} // ArrayList: its capacity logic is covered by srcgen
+	case "C04", "C13":
+		return []string{"LinkedHashSet", "HashSet", "TreeSet"}
+	case "C09":
+		return []string{"LinkedHashMap", "LinkedHashSet"}
+	case "C01":
+		return []string{"LinkedHashMap", "HashMap"}
+	case "C10":
+		return []string{"HashBidiMap"}
+	case "C05":
+		return []string{"ArrayStack", "ArrayQueue", "LinkedListStack"}
+	case "C06":
+		return []string{"BinaryHeap"}
+	case "C14":
+		return []string{"DoublyLinkedList", "SinglyLinkedList", "LinkedHashSet"}
+	}
+	return nil
 }
 
 // ---------- small random helpers ----------
@@ -794,7 +832,8 @@ func (g *generator) newCase(prop string, i int) *caseGen {
 		if c.cfg.Kind == "TreeBidiMap" {
 			c.cfg.VCmp = g.pick(cmpNames)
 		}
-		c.plan = g.mixPlan(c.cfg.Kind, g.length(), 97, 3, nil)
+		// the ordered kinds' derived containers too: Select / Map / set-algebra results are ordered containers
+		c.plan = g.mixPlan(c.cfg.Kind, g.length(), 90, 3, append(append([]wname{}, enumOps...), algebraOps...))
 		return c
 	case "C03":
 		c := g.baseCase(g.pick(listKinds))
@@ -861,7 +900,8 @@ func (g *generator) newCase(prop string, i int) *caseGen {
 		return c
 	case "C13":
 		c := g.baseCase(g.pick(setKinds))
-		c.plan = g.mixPlan(c.cfg.Kind, g.length(), 42, 3, algebraOps)
+		// operands come from anywhere: also from Select / Map
+		c.plan = g.mixPlan(c.cfg.Kind, g.length(), 42, 3, append(append([]wname{}, algebraOps...), wname{"Select", 8}, wname{"Map", 8}))
 		return c
 	case "C14":
 		c := g.baseCase(g.pick(enumKinds))
